@@ -231,6 +231,7 @@ def workload(ctx, lentil):
                       {'state': state, 'shape': list(shape), 'px': list(px), 'ts': ts})
     # ---- history independence across processes: pairs of calls that differ in ONE argument are evaluated here in one order
     # and in a fresh interpreter in the opposite order; every result must be the same in both -----------------------------
+    import os
     import pickle
     import subprocess
     import sys
@@ -272,7 +273,10 @@ def workload(ctx, lentil):
                 "    mod, fn = name.split('.'); f = getattr(getattr(lentil, mod), fn)\n"
                 "    out.append(probe.fingerprint(np.asarray(f(*args, **kw))))\n"
                 "pickle.dump(out, open(%r, 'wb'))") % (core_verif(), repo_dir_(), pin, pout)
-        p = subprocess.run([sys.executable, '-c', code], timeout=300, stdout=subprocess.PIPE, stderr=subprocess.STDOUT)
+        # the other interpreter also runs under a different string-hash salt (PYTHONHASHSEED): nothing about a seeded draw may
+        # depend on per-process hashing
+        env = dict(os.environ, PYTHONHASHSEED=str(1 + (int(os.environ.get('PYTHONHASHSEED', '0') or 0) + 12345 + ctx.seed) % 4000000000))
+        p = subprocess.run([sys.executable, '-c', code], timeout=300, stdout=subprocess.PIPE, stderr=subprocess.STDOUT, env=env)
         if p.returncode != 0:
             ctx.check(False, 'fresh-process', 'fresh-process|failed', 'fresh-process replay failed: ' + p.stdout.decode()[-300:], {})
         else:
@@ -280,8 +284,9 @@ def workload(ctx, lentil):
             for (name, args, kw), a, b in zip(calls, here, there):
                 ctx.case({'fresh-process': name, 'seed': kw.get('seed')}, ['fresh-process'])
                 ctx.check(a == b, 'fresh-process', f'history-dependent|{name}',
-                          f'{name}: the result of a seeded call depends on which calls were made before it in the process '
-                          '(differs from the same call in a fresh interpreter with the opposite call order)', {'model': name})
+                          f'{name}: the result of a seeded call depends on which calls were made before it in the process or on the '
+                          'process itself (differs from the same call in a fresh interpreter with the opposite call order and another '
+                          'string-hash salt)', {'model': name})
     ctx.notes['_events'] = log.events
 
 
